@@ -19,6 +19,8 @@ var int8T = reflect.TypeFor[int8]()
 
 type lateComp struct{ V int64 }
 
+type earlyComp struct{ V int64 }
+
 type relDummy struct {
 	ecs.RelationMarker
 	V int32
@@ -74,6 +76,21 @@ func registryCase(n, order int) (steps int, v *drv.Violation) {
 			return base(i)
 		}
 	}
+	// type #1 is a static Go type; a typed mapper and filter for it are created right after its registration,
+	// i.e. before all the other types exist, and used at the very end
+	earlyAt := -1
+	if n >= 3 {
+		earlyAt = 1
+		base := typeOf
+		typeOf = func(i int) reflect.Type {
+			if i == earlyAt {
+				return reflect.TypeFor[earlyComp]()
+			}
+			return base(i)
+		}
+	}
+	var earlyMap *ecs.Map1[earlyComp]
+	var earlyFilter *ecs.Filter1[earlyComp]
 	var relChildren []ecs.Entity
 	var relTargets []ecs.Entity
 	for i := 0; i < n; i++ {
@@ -81,6 +98,10 @@ func registryCase(n, order int) (steps int, v *drv.Violation) {
 		var id ecs.ID
 		if tryDo(func() { id = ecs.TypeID(w, typeOf(i)) }) {
 			return fail("registering type #%d (of max %d) panicked", i+1, MaxComps)
+		}
+		if i == earlyAt {
+			earlyMap = ecs.NewMap1[earlyComp](w)
+			earlyFilter = ecs.NewFilter1[earlyComp](w)
 		}
 		if relFirst && i == 0 {
 			for k := 0; k < 3; k++ {
@@ -372,6 +393,39 @@ func registryCase(n, order int) (steps int, v *drv.Violation) {
 		steps++
 		if !w.Alive(c) || u.GetRelation(c, ids[0]) != relTargets[k] {
 			return fail("relation child %d (created before the other types were registered) lost its target", k)
+		}
+	}
+	if earlyMap != nil {
+		// the mapper and filter created when only two types were registered, on a table created now
+		steps++
+		var v *drv.Violation
+		if tryDo(func() {
+			e := earlyMap.NewEntity(&earlyComp{V: 77})
+			u.Add(e, ids[n-1])
+			if p := earlyMap.Get(e); p == nil || p.V != 77 {
+				_, v = fail("mapper created before %d further types were registered: Get on a new table does not return the stored value", n-2)
+				return
+			}
+			if unsafe.Pointer(earlyMap.Get(e)) != u.Get(e, ids[earlyAt]) {
+				_, v = fail("mapper created before %d further types were registered: Get differs from Unsafe.Get", n-2)
+				return
+			}
+			q := earlyFilter.Query()
+			found := false
+			for q.Next() {
+				if q.Entity() == e {
+					found = q.Get().V == 77
+				}
+			}
+			if !found {
+				_, v = fail("filter created before %d further types were registered does not yield the entity (with its value) from a table created afterwards", n-2)
+			}
+			w.RemoveEntity(e)
+		}) {
+			return fail("using a mapper/filter created before %d further types were registered panicked: %v", n-2, lastPanic)
+		}
+		if v != nil {
+			return steps, v
 		}
 	}
 	if relFirst && len(ecs.ComponentIDs(w)) < MaxComps {
